@@ -361,6 +361,9 @@ func runC02(c *Ctx) {
 	}
 	c.Min("C02.G6", 3)
 	c.Assume("ECDSA / EdDSA / SHA-2 and go-jose key decoding are a trusted base; counterfeiter doubles (pkg/mocks, *.gen.go) are excluded from interface-call resolution")
+	// "a compact JWS that verifies under the public key": what verification accepts (signature length and split, digest,
+	// Verify result) is decided by the JWS rules of C15, which run inside this check
+	runC15(c)
 }
 
 // lateStoreEvent: stores to field `fld` of an allocation of struct `named` that are NOT part of the
